@@ -276,6 +276,9 @@ func execQueueBlk(op string) string {
 	case <-time.After(2 * time.Second):
 		return "stalled"
 	}
+	// give the ticker goroutine time to reach the queue's mutex while the producer is still inside the call
+	// (nobody drains yet, so a producer that has to block stays blocked)
+	time.Sleep(300 * time.Microsecond)
 	// drain: until the producer returned and the tick's flush is through (queue empty), within a time limit.
 	// eq.Len() takes the queue's mutex, which a flush blocked on the full channel holds: ask in a goroutine and
 	// keep receiving meanwhile.
@@ -305,7 +308,7 @@ func execQueueBlk(op string) string {
 			}
 			time.Sleep(50 * time.Microsecond)
 		case <-deadline:
-			return fmt.Sprintf("got=%s len=%d", strings.Join(got, " "), last)
+			return fmt.Sprintf("got=%s len=%d BLOCKED(not drained within 1.5s)", strings.Join(got, " "), last)
 		}
 	}
 }
